@@ -100,6 +100,8 @@ EXTRA_ENGINES = [
   "kind_free_text": "growth beyond the listed properties (G04): TLA+/TLC state machines of LocalTask (Popen + waiter thread on a modelled kernel), SimulatorTask and the monitor primitives (CreateMonitor / CreateDeathAction / CreateEventAction / MonitorExceptionTracker); every model transition replayed on the real classes in a lock-step thread world (scheduling points down to single source lines, virtual clock), random line-level interleavings trace-validated, returncode->exitReason table and exception tracker as function specifications. Run with ./check G04 --tier quick|thorough (evidence/G04.json); not a property check."},
  {"name": "DataStaging", "path": "/verif/spec/DataStaging.tla", "serves_properties": ["C18", "C10"],
   "kind_free_text": "growth beyond the listed properties (G07): TLC model of stage-in / task writes / source changes / restart with and without restaging / loop iteration over an abstract file system; every enumerated behaviour replayed on the real Job / ComponentState / StageReference of real experiment instances and compared step by step, random histories trace-validated (DataStaging_trace.tla), real elaunch end-to-end. Run with ./check G07 --tier quick|thorough (evidence/G07.json); not a property check."},
+ {"name": "K8sTask", "path": "/verif/spec/K8sTask.tla", "serves_properties": ["C12"],
+  "kind_free_text": "growth beyond the listed properties (G06): the real NativeScheduledTask (via KubernetesTaskGenerator) over a scripted cluster below the real kubernetes client; HTTP-request-level TLA+ state machine with API failure scripts, bound by transition-cover replay (full projection incl. request sequence, hidden memory and clock), no-hidden-state trace validation of random runs (K8sTask_trace.tla), and function specifications of _getTaskState / exitReason. Run with ./check G06 --tier quick|thorough (evidence/G06.json); not a property check."},
 ]
 
 
